@@ -44,6 +44,7 @@ struct Stats {
     m128: u64,
     rewinds: u64,
     locked_128k: u64,
+    long_tapes: u64,
     fingerprints: HashSet<(usize, u16, bool, &'static str, bool)>,
     sample: Option<J>,
 }
@@ -180,7 +181,24 @@ fn eot_request(ctx: &Ctx, m: &mut Machine, req: &LdReq, rng: &mut Rng, case: &dy
 fn run_history(ctx: &Ctx, hid: u64, st: &mut Stats) {
     let mut rng = Rng::fork(ctx.seed ^ 0xC10, hid);
     let is128 = rng.chance(1, 4);
-    let blocks = gen_blocks(&mut rng, !ctx.quick());
+    // two histories in sixteen use long tapes: one huge block (up to the format's 65535 bytes, mostly
+    // not a multiple of the deck's 128-byte window) followed by ordinary ones, or several hundred
+    // ordinary blocks (the tape passes 64 KiB and goes on)
+    let blocks = match hid % 16 {
+        7 => {
+            let total = *rng.pick(&[65535usize, 65534, 65410, 65409, 49154, 40000, 33001, 32769]) - if rng.chance(1, 3) { rng.below(300) as usize } else { 0 };
+            let mut v = vec![mk_block(*rng.pick(&[0xFFu8, 0x00, 0xA5]), &rng.bytes(total - 2), rng.chance(3, 4))];
+            v.extend(gen_blocks(&mut rng, false).into_iter().filter(|b| b.len() < 1000));
+            st.long_tapes += 1;
+            v
+        }
+        11 => {
+            let n = 290 + rng.below(60) as usize;
+            st.long_tapes += 1;
+            (0..n).map(|_| { let len = 200 + rng.below(60) as usize; let f = *rng.pick(&[0xFFu8, 0xFF, 0x00, 0x5A]); mk_block(f, &rng.bytes(len), rng.chance(7, 8)) }).collect()
+        }
+        _ => gen_blocks(&mut rng, !ctx.quick()),
+    };
     // truncated tail: the file ends inside the last block / inside a length word
     let truncated = rng.chance(1, 10) && blocks.last().map(|b| b.len() >= 2).unwrap_or(false);
     let mut img = tap_image(&blocks);
@@ -405,6 +423,7 @@ pub fn run(ctx: &Ctx) -> Evidence {
             m128: 0,
             rewinds: 0,
             locked_128k: 0,
+            long_tapes: 0,
             fingerprints: HashSet::new(),
             sample: None,
         };
@@ -426,6 +445,7 @@ pub fn run(ctx: &Ctx) -> Evidence {
     let (mut reqs, mut eot, mut tr, mut lo, mut vo, mut bb, mut h, mut m128) = (0, 0, 0, 0, 0, 0, 0, 0);
     let mut rewinds = 0u64;
     let mut locked128 = 0u64;
+    let mut long_tapes = 0u64;
     for r in res {
         reqs += r.requests;
         eot += r.eot_requests;
@@ -437,6 +457,7 @@ pub fn run(ctx: &Ctx) -> Evidence {
         m128 += r.m128;
         rewinds += r.rewinds;
         locked128 += r.locked_128k;
+        long_tapes += r.long_tapes;
         for i in 0..5 {
             exits[i] += r.exits[i];
         }
@@ -457,6 +478,7 @@ pub fn run(ctx: &Ctx) -> Evidence {
     ev.add("requests_on_buffer_boundary_blocks", bb as u64);
     ev.add("rewinds_between_requests", rewinds);
     ev.add("histories_on_a_locked_128k_with_ignored_paging_writes", locked128);
+    ev.add("histories_on_long_tapes(huge block or > 64 KiB of blocks)", long_tapes);
     let names = ["parity-ok", "parity-bad", "flag-mismatch", "verify-mismatch", "out-of-bytes"];
     ev.add("exit_paths", J::Arr((0..5).map(|i| jobj! {"exit"=>names[i], "count"=>exits[i]}).collect()));
     ev.assumptions.push("stack window [SP-24,SP+4) excluded from the RAM comparison; stored ranges never overlap it".into());
